@@ -3,11 +3,11 @@ import json, os, time
 from core import *
 
 BATCH_INVS = ("TypeOK ConcurrencyBound WgCount AllSettledAtPost NoFakeSuccess AttemptBound NoEmptyAction "
-              "InvC06 InvC07 InvC02 InvC08 InvC09 InvC11 InvC18 InvC04")
+              "InvC06 InvC07 InvC02 InvC08 InvC09 InvC11 InvC18 InvC04 InvC17")
 
 # (Family, MaxItems, MaxC, MaxN, export)
 PLAN = {
-    "C06": dict(mc_q=[("seq", 3, 1, 2, True), ("gated", 3, 2, 1, True), ("gatedcancel", 2, 2, 1, True), ("conc", 2, 2, 2, False)],
+    "C06": dict(mc_q=[("seq", 3, 1, 2, True), ("gated", 3, 2, 1, True), ("gatedcancel", 2, 2, 1, True), ("eres", 2, 2, 2, True), ("conc", 2, 2, 2, False)],
                 mc_t=[("seq", 4, 1, 2, True), ("gated", 4, 3, 1, True), ("gated", 3, 2, 2, True), ("gatedcancel", 3, 2, 2, True), ("conc", 3, 2, 2, False)],
                 gen_q=("continue,stop,cancel,single,empty", 60), gen_t=("continue,stop,cancel,single,empty", 1500)),
     "C07": dict(mc_q=[("seq", 3, 1, 2, True), ("gated", 3, 2, 2, True), ("conc", 2, 2, 2, False)],
@@ -27,6 +27,8 @@ PLAN = {
                 gen_q=("continue,stop", 60), gen_t=("continue,stop", 1500)),
     "C04": dict(mc_q=[("seq", 2, 1, 1, True)], mc_t=[("seq", 3, 1, 2, True), ("gated", 2, 2, 1, True)],
                 gen_q=("continue", 40), gen_t=("continue,stop", 800)),
+    "C17": dict(mc_q=[("eres", 2, 2, 2, True)], mc_t=[("eres", 3, 2, 2, True), ("seq", 3, 1, 2, True)],
+                gen_q=("continue,stop", 60), gen_t=("continue,stop", 1500)),
     "C18": dict(mc_q=[("seq", 2, 1, 1, True), ("empty", 0, 2, 1, True)], mc_t=[("seq", 3, 1, 2, True), ("empty", 0, 2, 1, True), ("gated", 2, 2, 1, True)],
                 gen_q=("empty,single,continue", 50), gen_t=("empty,single,continue,stop", 800)),
 }
